@@ -1345,9 +1345,15 @@ class DocTest:
                             new_line = ','.join(tbparts)
 
                             # failed_ctx = '>>> ' + self.failed_part.exec_lines[tb_lineno - 1]
-                            failed_ctx = self.failed_part.orig_lines[tb_lineno - 1]
-                            extra = '    ' + failed_ctx
-                            line = (new_line + extra + '\n')
+                            # All parts of a doctest share one filename, so
+                            # the frame may belong to code defined by an
+                            # earlier part: only rewrite the entry when the
+                            # line exists in the failed part.
+                            orig_lines = self.failed_part.orig_lines
+                            if 0 < tb_lineno <= len(orig_lines):
+                                failed_ctx = orig_lines[tb_lineno - 1]
+                                extra = '    ' + failed_ctx
+                                line = (new_line + extra + '\n')
 
                         # m = '(t{})'.format(i)
                         # line = m + line.replace('\n', '\n' + m)
